@@ -372,6 +372,9 @@ func (C10) Judge(c *Ctx, sc *Scenario) []Violation {
 			diff = "separators-only"
 		} else if bytes.Equal(stripComments(combined.Stdout), stripComments(expected)) {
 			diff = "comments-only"
+		} else if outFmt == "xml" && bytes.Equal(squeeze(stripComments(combined.Stdout)), squeeze(stripComments(expected))) {
+			// XML scalars are printed without a newline: where a comment lands also decides where lines break
+			diff = "comments-only"
 		}
 		add(oracle, "diff="+diff, firstDiffClass(),
 			fmt.Sprintf("combined output is not the join of the per-document outputs:\n--- combined ---\n%s\n--- expected ---\n%s", clip(combined.Stdout, 600), clip(expected, 600)))
@@ -659,3 +662,5 @@ func outFormatOf(argv []string, files []File) string {
 	}
 	return out
 }
+
+func squeeze(b []byte) []byte { return bytes.Join(bytes.Fields(b), nil) }
